@@ -122,7 +122,10 @@ pub(crate) mod verif_c10 {
     let off = any_qos();
     let req = any_qos();
     kani::cover!(true); // vacuity guard: inputs are constructible
-    off.compliance_failure_wrt_impl(&req);
+    let r = off.compliance_failure_wrt_impl(&req);
+    // the same postcondition once more as a plain assertion, so that the concrete-playback
+    // unit test (which runs without contract instrumentation) fails on a counterexample
+    assert!(rxo_verdict_ok(&off, &req, &r));
   }
 
   // the public wrapper returns the verdict of the contracted function unchanged
@@ -132,6 +135,7 @@ pub(crate) mod verif_c10 {
     let req = any_qos();
     let r = off.compliance_failure_wrt(&req);
     assert!(r == off.compliance_failure_wrt_impl(&req));
+    assert!(rxo_verdict_ok(&off, &req, &r));
   }
 
   // localising contracts on the two hand-written Ord impls the check relies on
